@@ -373,6 +373,7 @@ def check_property(prop, tier, seed):
     known = load_known()
     violations = []        # (tag, payload, has_input)
     undecided = []
+    foreign = []           # (unit result, failure): clause of another property failing in a function that serves this one
     known_hits = []
     unit_results = []
     dep_units = [u for u in cfg.get('dep_units', []) if u not in cfg.get('units', [])]
@@ -426,6 +427,16 @@ def check_property(prop, tier, seed):
                 if ur.unit in dep_units and prop not in fl['props']:
                     fl = dict(fl, message='%s  [dependency unit %s: a collaborator contract assumed by %s no longer holds]' % (fl['message'], ur.unit, prop))
                 relevant_fail.append(fl)
+        # a clause labelled for ANOTHER property fails inside a function that also serves this property: the remaining clauses of that
+        # function were checked with the failed one assumed, so they are not established for this property: undecided (never a
+        # violation of this property), unless the changed text is unchanged (then it is reported as flaky below anyway)
+        fn_props = dict((r['key'], r['props']) for r in ur.functions)
+        for fl in ur.failures:
+            if fl in relevant_fail or fl['fn'] not in fn_props:
+                continue
+            if prop in fn_props[fl['fn']] and not match_known(known, prop, ur.unit, fl) \
+                    and not any(k.get('kind') == 'obligation' and k.get('unit') == ur.unit and k.get('function') == fl['fn'] for k in known.get('findings', [])):
+                foreign.append((ur, fl))
         for r in ur.functions + ur.lemmas:
             smt_us += r.get('smt_time_us') or 0
         for r in ur.functions:
@@ -519,6 +530,33 @@ def check_property(prop, tier, seed):
             for f in ur.functions[:3]:
                 samples.append({'obligation': 'all VCs of %s (%s:%s)' % (f['key'], f['file'], f['line']), 'verified': f.get('verified'),
                                 'smt_time_us': f.get('smt_time_us')})
+
+    # foreign-labelled failures: undecided for this property, with the unit's native witness search as fallback
+    done_ws = set()
+    for (ur, fl) in foreign:
+        if not ur.changed:
+            undecided.append('%s: obligation %s of %s failed on text identical to the baseline (flaky proof, not a code change)' % (ur.unit, fl['labels'], fl['fn']))
+            continue
+        if any(v[0].startswith('%s_' % ur.unit) for v in violations):
+            continue      # this unit already reports a violation of this property
+        from config import WITNESS_SEARCH
+        ws = WITNESS_SEARCH.get(ur.unit)
+        found = False
+        if ws and ur.unit not in done_ws:
+            done_ws.add(ur.unit)
+            rc_w, out_w = native_replay(ws[0], [str(a).replace('$SEED', str(seed + 1)) for a in ws[1]])
+            if rc_w == 1:
+                found = True
+                payload = {'property': prop, 'unit': ur.unit, 'function': fl['fn'], 'file': fl['file'],
+                           'failed_obligation': {'labels': fl['labels'], 'message': 'a clause labelled for another property fails in %s, which also serves %s (%s); the native witness search found a failing input' % (fl['fn'], prop, fl['message'])},
+                           'verifier': 'verus (clause of another property failed: undecided for this one) + native witness search (bounded)',
+                           'verifier_output': fl['rendered'], 'changed_items_vs_baseline': ur.changed,
+                           'failing_input': out_w.split('\n')[0],
+                           'native_replay': {'case': ws[0], 'args': ws[1], 'output': out_w, 'confirmed_on_real_code': True}}
+                violations.append(('%s_%s_witness' % (ur.unit, fl['fn']), payload, True))
+        if not found:
+            undecided.append('%s: clause %s (another property) of %s fails on the changed text; %s serves %s too and its other clauses were checked with the failed one assumed: undecided for %s, no failing input found'
+                             % (ur.unit, fl['labels'], fl['fn'], fl['fn'], prop, prop))
 
     # ---- Kani harnesses ----
     kani_ev = []
